@@ -172,6 +172,22 @@ func (p *regExpParser) scanEscape(inClass bool) {
 	var length, base uint32
 	switch p.chr {
 	case '0', '1', '2', '3', '4', '5', '6', '7':
+		if n := p.backreferenceLength(); n > 1 {
+			// \10 is a backreference when the pattern has ten groups, not an octal escape
+			for ; n > 0; n-- {
+				p.read()
+			}
+			err := p.goRegexp.WriteByte('\\')
+			if err != nil {
+				p.errors = append(p.errors, err)
+			}
+			_, err = p.goRegexp.WriteString(p.str[offset:p.chrOffset])
+			if err != nil {
+				p.errors = append(p.errors, err)
+			}
+			p.error(-1, "re2: Invalid \\%s <backreference>", p.str[offset:p.chrOffset])
+			return
+		}
 		var value int64
 		size := 0
 		for {
@@ -424,4 +440,36 @@ func (p *regExpParser) scanAssertionEnd() {
 	}
 	p.error(-1, "Nothing to repeat")
 	p.invalid = true
+}
+
+// backreferenceLength returns the number of decimal digits at the current
+// position if they denote an existing capturing group (\1 ... \NcapturingParens), 0 otherwise.
+func (p *regExpParser) backreferenceLength() int {
+	str := p.str[p.chrOffset:]
+	if str[0] == '0' {
+		return 0
+	}
+	n, value := 0, 0
+	for n < len(str) && '0' <= str[n] && str[n] <= '9' && value < 1<<20 {
+		value = value*10 + int(str[n]-'0')
+		n++
+	}
+	groups := 0
+	inClass := false
+	for i := 0; i < len(p.str); i++ {
+		switch chr := p.str[i]; {
+		case chr == '\\':
+			i++
+		case inClass:
+			inClass = chr != ']'
+		case chr == '[':
+			inClass = true
+		case chr == '(' && (i+1 >= len(p.str) || p.str[i+1] != '?'):
+			groups++
+		}
+	}
+	if value > groups {
+		return 0
+	}
+	return n
 }
